@@ -442,6 +442,7 @@ func sqlChecks(t *node, text string, withRows bool) {
 // H_SQLLeaf: one leaf of every form, all constants and the row value symbolic.
 func H_SQLLeaf() {
 	concreteFields, nextField = rtParam("CONCRETE") == 1, 0
+	signedInts = true
 	form := sqlLeafForms[rtParam("FORM")]
 	t := genLeaf([]int{form})
 	rtTag("form=" + leafNames[form])
@@ -453,6 +454,7 @@ func H_SQLLeaf() {
 // H_SQLTree: boolean structure over the filterable fragment.
 func H_SQLTree() {
 	concreteFields, nextField = true, 0
+	signedInts = rtParam("SIGNED") == 1
 	var forms []int
 	if rtParam("LEAVES") == 0 {
 		forms = []int{lfEqInt}
